@@ -112,9 +112,31 @@ fn truthy(v: &V) -> bool {
     }
 }
 
+/// Python's repr of a string: single quotes unless the text has a single and no double quote
+fn py_str_repr(s: &str) -> String {
+    let q = if s.contains('\'') && !s.contains('"') { '"' } else { '\'' };
+    let mut o = String::new();
+    o.push(q);
+    for c in s.chars() {
+        match c {
+            c if c == q => {
+                o.push('\\');
+                o.push(c);
+            }
+            '\\' => o.push_str("\\\\"),
+            '\n' => o.push_str("\\n"),
+            '\r' => o.push_str("\\r"),
+            '\t' => o.push_str("\\t"),
+            c => o.push(c),
+        }
+    }
+    o.push(q);
+    o
+}
+
 fn repr(v: &V) -> String {
     match v {
-        V::Str(s) | V::Safe(s) => format!("'{}'", s),
+        V::Str(s) | V::Safe(s) => py_str_repr(s),
         other => display(other),
     }
 }
@@ -126,7 +148,7 @@ pub fn display(v: &V) -> String {
         V::Int(i) => i.to_string(),
         V::Str(s) | V::Safe(s) => s.clone(),
         V::List(l) => format!("[{}]", l.iter().map(repr).collect::<Vec<_>>().join(", ")),
-        V::Map(m) => format!("{{{}}}", m.iter().map(|(k, v)| format!("'{}': {}", k, repr(v))).collect::<Vec<_>>().join(", ")),
+        V::Map(m) => format!("{{{}}}", m.iter().map(|(k, v)| format!("{}: {}", py_str_repr(k), repr(v))).collect::<Vec<_>>().join(", ")),
         V::Macro(_) => "<macro>".into(),
         V::Loop(_) => "<loop>".into(),
     }
@@ -206,6 +228,13 @@ fn names_in_nodes(nodes: &[Node], out: &mut Vec<&'static str>) {
 impl Interp {
     pub fn new(ctx: BTreeMap<String, V>) -> Interp {
         Interp { stack: vec![Frame { sees_ctx: true, ..Default::default() }], ctx, out: vec![String::new()], depth: 0, auto_escape: false }
+    }
+
+    /// a template whose name selects HTML auto-escaping
+    pub fn new_html(ctx: BTreeMap<String, V>) -> Interp {
+        let mut i = Interp::new(ctx);
+        i.auto_escape = true;
+        i
     }
 
     pub fn run(mut self, nodes: &[Node]) -> Result<String, RErr> {
